@@ -328,16 +328,24 @@ def worker(job):
 def run(ctx):
     ctx.rep.rule = RULE
     ctx.rep.assumptions = ['dict backend under asyncio: code between two lock acquisitions is atomic; the scheduler parks at every acquisition of the backend locks',
-                           'process kill (maildir) is C15\'s child-process machinery; there is nothing persistent to kill in the dict backend']
+                           'process kill applies to maildir only (there is nothing persistent to kill in the dict backend); it is run here through C15\'s child-process machinery on MOVE/COPY histories']
     names = list(COMMANDS)
     nw = ctx.workers
     chunks = [names[k::nw] for k in range(nw)]
     ctx.rep.extra['fault_enumeration'] = 'every park point of every command is cut once by cancellation; storage calls 1-4 raise once each'
     ctx.pmap(worker, [(ctx.seed * 1000 + 140 + k, chunks[k % len(chunks)] if k < len(names) else [names[k % len(names)]], ctx.budget(6, 80)) for k in range(nw)])
+    # maildir: the fault is a process kill at every filesystem-operation boundary of MOVE / COPY histories (C15's child-process machinery);
+    # the judge there includes conservation: a message of a MOVE in flight is served from the source or the destination after the restart
+    from . import c15
+    configs = [('++', False), ('fs', False)]
+    ctx.pmap(c15.worker, [(ctx.seed * 1000 + 1400 + k, ctx.budget(1, 6), ['moves'], configs[k % 2:] + configs[:k % 2]) for k in range(nw)])
 
 
 def replay(case):
     case = case.get('case', case)
+    if 'history' in case:
+        from . import c15
+        return c15.replay(case)
     part = Part()
     m = Model()
     others = {int(i): [o.encode() for o in ops] for i, ops in case.get('others', {}).items()}
